@@ -111,6 +111,9 @@ func mk(op Op, w int, c uint64, name string, a ...*Term) *Term {
 		if strings.HasPrefix(name, "appendcap") {
 			t.dep |= 2
 		}
+		if strings.HasPrefix(name, "rand.") {
+			t.dep |= 4
+		}
 	}
 	for _, x := range a {
 		t.dep |= x.dep
